@@ -348,10 +348,17 @@ package dataflow
 //@ spec canon(cg *callgraph.Graph, n *callgraph.Node) bool = n != nil && has(cg.Nodes, n.Func) && cg.Nodes[n.Func] == n
 //@ spec onWL(wl []*callgraph.Node, x *callgraph.Node) bool = exists j int :: 0 <= j && j < len(wl) && wl[j] == x
 
+// Entry points: main.main and the package initializer main.init (unless excluded) --
+// everything that runs starts from one of them.
+//@ spec isMainPkgFunc(g *ssa.Function, name string) bool = g.Name() == name && g.Pkg != nil && g.Pkg.Pkg.Name() == "main"
 //@ func findCallgraphEntryPoints
+//@   option append_both
 //@   property C12
 //@   requires wf: cgwf(cg)
 //@   ensures canonical: forall i int :: 0 <= i && i < len(result) ==> canon(cg, result[i])
+//@   ensures main_is_entry: forall g *ssa.Function :: has(cg.Nodes, g) && cg.Nodes[g].ID != 0 && !excludeMain && isMainPkgFunc(g, "main") ==> onWL(result, cg.Nodes[g])
+//@   ensures init_is_entry: forall g *ssa.Function :: has(cg.Nodes, g) && cg.Nodes[g].ID != 0 && !excludeInit && isMainPkgFunc(g, "init") ==> onWL(result, cg.Nodes[g])
+//@   loop f invariant entries_so_far: forall g *ssa.Function :: visited(f, g) && cg.Nodes[g].ID != 0 && ((!excludeMain && isMainPkgFunc(g, "main")) || (!excludeInit && isMainPkgFunc(g, "init"))) ==> onWL(entryPoints, cg.Nodes[g])
 //@   modifies nothing
 //@   loop f invariant isfresh(entryPoints)
 //@   loop f invariant preserved(elems(*callgraph.Node))
